@@ -411,6 +411,25 @@ def check_req(ctx, plans, compare=True):
                                'journal %s, held lock objects/files %s, Session.locked=%s  [%s]'
                             % (j, r['leaked'], r['locked_end'], shape),
                             'req:lock_not_released:%s:%s' % (p['mode'], 'file' if p['file'] else 'ram'))
+        # read-modify-write updates are never lost: a request that ended normally (handler returned, no hook failed,
+        # the store did not fail, the body was delivered to its end) has its updates in the store for the next request
+        plain = (p['out'] == 'ok' and p['oer'] == 'ok' and not p['saveFails'] and not p.get('relFail') and not sloppy
+                 and 'regen' not in p['acts'] and not p.get('afterReq')
+                 and all(h[2] == 'ok' for k in ('brb', 'bh', 'bf', 'eer') for h in p[k])
+                 and (not p['gen'] or (not p['genRaise'] and (p['consume'] == 'full' or not p['stream'])))
+                 and r['status'] == '200' and not r.get('gen_error') and not r.get('close_error'))
+        rb = r.get('readback')
+        if plain and isinstance(rb, dict):
+            want_n = p['acts'].count('touch')
+            lost = []
+            if rb.get('n') != want_n:
+                lost.append('n=%r, expected %d' % (rb.get('n'), want_n))
+            if p['gen'] and p['genTouch'] and rb.get('g') != 1:
+                lost.append('the value stored by the %s body is missing' % ('streamed' if p['stream'] else 'generator'))
+            if lost:
+                ctx.oracle_fail(p, 'the request ended normally but its session updates are not in the store for the next '
+                                   'request (%s; stored %s)  [%s]' % ('; '.join(lost), rb, shape),
+                                'req:update_lost:%s:%s' % (p['mode'], 'file' if p['file'] else 'ram'))
         if model is not None:
             ctx.compared()
             mj = model[idx].split(' ')[0][2:]
@@ -442,6 +461,31 @@ def check_internal_redirects(ctx):
                 if r['leaked'] or r['locked_end'] or not j.endswith('E:0:0'):
                     ctx.oracle_fail(p, 'after the request ended in an InternalRedirect (close() called) the session lock is '
                                        'still held: journal %s, held lock objects/files %s, Session.locked=%s  [%s]'
+                                    % (j, r['leaked'], r['locked_end'], plan_shape(p)),
+                                    'req:lock_not_released:%s:%s' % (p['mode'], 'file' if p['file'] else 'ram'))
+
+
+def check_start_response_faults(ctx):
+    """The server's start_response raises (once) for the planned request - streamed body, plain body, error
+    response after an unexpected handler exception: the response object the server would close() is never handed
+    over.  No model; oracle: afterwards no lock object / lock file of the session is held."""
+    base = {'kind': 'req', 'acts': ['touch'], 'out': 'ok', 'stream': False, 'gen': False, 'genTouch': False,
+            'genRaise': False, 'consume': 'full', 'saveFails': False, 'oer': 'ok', 'srFail': True,
+            'brb': [], 'bh': [], 'bf': [], 'eer': []}
+    for mode in ('implicit', 'early', 'explicit'):
+        for file in (False, True):
+            acts0 = ['acquire', 'touch'] if mode == 'explicit' else ['touch']
+            b = dict(base, mode=mode, file=file, acts=acts0)
+            for p in (dict(b), dict(b, stream=True, gen=True, genTouch=True), dict(b, stream=True, gen=True),
+                      dict(b, out='exc'), dict(b, out='http'), dict(b, stream=True, gen=True, out='exc'),
+                      dict(b, acts=acts0 + ['regen', 'touch'], stream=True, gen=True)):
+                r = REQ.run_plan(p)
+                ctx.case(p, nontrivial=True, key='srFail ' + REQ.plan_line(p))
+                ctx.count('req:start_response_fails/%s' % ('escaped' if r.get('call_error') else 'answered'))
+                j = ','.join(r['journal'])
+                if r['leaked'] or r['locked_end'] or not j.endswith('E:0:0'):
+                    ctx.oracle_fail(p, 'the server\'s start_response raised; afterwards the session lock is still held: '
+                                       'journal %s, held lock objects/files %s, Session.locked=%s  [%s]'
                                     % (j, r['leaked'], r['locked_end'], plan_shape(p)),
                                     'req:lock_not_released:%s:%s' % (p['mode'], 'file' if p['file'] else 'ram'))
 
@@ -744,7 +788,8 @@ def run_one(ctx, case, variant, compare=True):
     elif kind == 'ramn':
         check_ramn(ctx, [run_ramn_case(case)], variant, compare)
     elif kind == 'req':
-        check_req(ctx, [case], compare and case.get('out') != 'iredir' and not case.get('relFail'))
+        check_req(ctx, [case], compare and case.get('out') != 'iredir' and not case.get('relFail')
+                  and not case.get('srFail'))
     elif kind == 'wsgi':
         check_wsgi(ctx, [case])
     elif kind == 'fileproc':
@@ -835,6 +880,7 @@ def run(ctx):
     check_req(ctx, [REQ.gen_plan(ctx.rng) for _ in range(ctx.budget(400, 12000))])
     check_release_faults(ctx)
     check_internal_redirects(ctx)
+    check_start_response_faults(ctx)
     lap('request plans')
     check_wsgi(ctx, wsgi_systematic())
     check_wsgi(ctx, [WSGI.gen_case(ctx.rng) for _ in range(ctx.budget(120, 2500))])
